@@ -15,6 +15,7 @@ import (
 	cmttypes "github.com/cometbft/cometbft/types"
 
 	beacon "github.com/oasisprotocol/oasis-core/go/beacon/api"
+	"github.com/oasisprotocol/oasis-core/go/common/cbor"
 	"github.com/oasisprotocol/oasis-core/go/common/crypto/signature"
 	"github.com/oasisprotocol/oasis-core/go/common/quantity"
 	"github.com/oasisprotocol/oasis-core/go/consensus/api/events"
@@ -137,6 +138,9 @@ func makeKnobs(d histDesc, r *prng.R) *knobs {
 	if !k.Bypass && r.Chance(15) {
 		k.NearCap, k.CapMargin = true, int64(1000+r.Intn(5000))
 	}
+	if !k.Bypass && !k.NearCap && r.Chance(5) {
+		k.SqrtHuge = true // sqrt genesis with a 2^100 stake: a passed switch to linear is the known finding
+	}
 	if capMarginFlag >= 0 {
 		k.Bypass, k.Huge, k.Tiny, k.TinyRemainder, k.NearCap, k.CapMargin = false, false, true, 7, true, capMarginFlag
 	}
@@ -190,6 +194,7 @@ type histResult struct {
 	outcome   string
 	finding   bool // the violation is the registered-key finding of script govweights
 	findingKey string // the violation is reported as a keyed finding (known_findings.json decides)
+	knownKey   string // the violation matches the narrow classification of a registered known finding
 	hist      map[string]int
 }
 
@@ -330,6 +335,9 @@ func newWorld(d histDesc, run *runner) (*world, error) {
 		rtKnobs(w.k)
 		w.k.EpochInterval = int64(3 + rng.Intn(3))
 		w.k.Commission[0] = []uint64{5000, 20_000, 99_999, 100_000}[rng.Intn(4)]
+		if d.Script == scriptRtSuspendTimeout {
+			w.k.EpochInterval = 3
+		}
 		if d.Script == scriptRtSlashReward {
 			w.k.Commission[0], w.k.EpochInterval = 100_000, 3
 		}
@@ -709,6 +717,11 @@ func (w *world) fail(h int64, what string, err error) {
 	if w.d.Script == "govweights" && strings.Contains(detail, "divide shareNextProposer") {
 		w.res.finding = true
 	}
+	if strings.Contains(detail, "is too many base units to convert to power") && w.sqrtToLinearPassed() {
+		// KNOWN FINDING (not repaired): the scheduler's change handler does not re-run the genesis
+		// check of the total supply against the NEW voting-power distribution
+		w.res.knownKey = findingSqrtLinear
+	}
 	if w.d.Stream == "roothash" && strings.Contains(detail, "failed transferring reward") && strings.Contains(detail, "failed to deposit to escrow") {
 		w.res.findingKey = findingTFC
 	}
@@ -977,4 +990,33 @@ func sizeClass(b *big.Int) string {
 	default:
 		return ">2^128"
 	}
+}
+
+const findingSqrtLinear = "C10:sqrt-to-linear-switch-with-stake-above-2^67"
+
+// sqrtToLinearPassed: the genesis distribution is sqrt, the history contains a PASSED scheduler
+// change to the linear distribution, and some active escrow is at least 2^67 base units.
+func (w *world) sqrtToLinearPassed() bool {
+	if w.g.Doc.Scheduler.Parameters.VotingPowerDistribution != schedulerAPI.VotingPowerDistributionSqrt || w.prev == nil {
+		return false
+	}
+	passed := false
+	for _, p := range w.prev.props {
+		cp := p.Content.ChangeParameters
+		if cp == nil || p.State != governance.StatePassed || cp.Module != schedulerAPI.ModuleName {
+			continue
+		}
+		var ch schedulerAPI.ConsensusParameterChanges
+		if cbor.Unmarshal(cp.Changes, &ch) == nil && ch.VotingPowerDistribution != nil && *ch.VotingPowerDistribution == schedulerAPI.VotingPowerDistributionLinear {
+			passed = true
+		}
+	}
+	big67 := bigPow2(67)
+	huge := false
+	for _, a := range w.prev.accts {
+		if a.Escrow.Active.Balance.ToBigInt().Cmp(big67) >= 0 {
+			huge = true
+		}
+	}
+	return passed && huge
 }
